@@ -89,6 +89,32 @@ def r1(ctx, chk):
                    "digit script is sanitised differently" % ", ".join(bad[:3]),
                    key={"function": fk, "construct": "raw regex " + (ast.unparse(recv) if not (isinstance(recv, ast.Name) and recv.id in ("re", "regex")) else pat[:40])},
                    file=f.file, function=f.qual, line=node.lineno, text=ast.unparse(node)[:120])
+    # the same for tests that are not regexes: membership of (a piece of) the raw string in a literal digit alphabet, or an ordering
+    # comparison against an ASCII digit, separates '1433379951' from the same number in another digit script
+    for fk in sorted(reach):
+        f = ix.funcs[fk]
+        for node in iter_own_nodes(f.node):
+            if not (isinstance(node, ast.Compare) and len(node.ops) == 1):
+                continue
+            op, a, b = node.ops[0], node.left, node.comparators[0]
+            hit = None
+            if isinstance(op, (ast.In, ast.NotIn)):
+                alpha = b.value if isinstance(b, ast.Constant) and isinstance(b.value, str) else (
+                    "0123456789" if ast.unparse(b) in ("string.digits", "digits") else None)
+                if alpha is not None and any(c in "0123456789" for c in alpha) and t.tainted(a, f):
+                    hit = "membership in the literal alphabet %r" % alpha[:20]
+            elif isinstance(op, (ast.Lt, ast.LtE, ast.Gt, ast.GtE)):
+                for x, y in ((a, b), (b, a)):
+                    if isinstance(y, ast.Constant) and isinstance(y.value, str) and len(y.value) == 1 and y.value in "0123456789" and t.tainted(x, f):
+                        hit = "ordering comparison with %r" % y.value
+            if hit is None:
+                continue
+            n += 1
+            chk.ob(rule, "%s L%d: raw string tested by `%s`" % (f.qual, node.lineno, " ".join(ast.unparse(node).split())[:50]), False,
+                   "%s tells ASCII digits from other decimal digits before the numerals are translated: the same number written in "
+                   "another digit script takes the other branch" % hit,
+                   key={"function": fk, "construct": "raw digit test " + " ".join(ast.unparse(node).split())[:40]},
+                   file=f.file, function=f.qual, line=node.lineno, text=" ".join(ast.unparse(node).split())[:120])
     chk.floor(rule, n, 8, "regex literals applied to the raw date string")
     chk.note("table-driven timezone regexes (patterns not literal) are outside R1: they only build an alternative string for the applicability test")
 
